@@ -1,5 +1,6 @@
 SPECIFICATION ESpec
 CONSTANTS
+  LeafVariants = {"plain", "ins0", "req0"}
   MaxStmts = 2
   MaxScript = 2
   MaxFault = 3
